@@ -35,7 +35,11 @@ func main() {
 			}
 		}
 	}
-	if _, err := generator.Generate(".", cmd); err != nil {
+	out := "."
+	if len(os.Args) > 2 {
+		out = os.Args[2]
+	}
+	if _, err := generator.Generate(out, cmd); err != nil {
 		fmt.Fprintln(os.Stderr, "GEN-ERROR:", err)
 		os.Exit(4)
 	}
@@ -54,9 +58,30 @@ def tree_hash(root, sub):
     return out
 
 
-def run_cmd(d, cmd):
-    r = subprocess.run(["go", "run", "./cmd/gen", cmd], cwd=d, env=GOENV, capture_output=True, text=True)
+def run_cmd(d, cmd, out=None):
+    args = ["go", "run", "./cmd/gen", cmd] + ([out] if out else [])
+    r = subprocess.run(args, cwd=d, env=GOENV, capture_output=True, text=True)
     return r.returncode, r.stderr[-2000:]
+
+
+
+def history_alt(d, problems):
+    # example with an output directory that is not the working directory
+    os.makedirs(os.path.join(d, "alt"), exist_ok=True)
+    rc, e = run_cmd(d, "example", "alt")
+    if rc != 0:
+        problems.append("example -o alt failed: " + e[-400:])
+    else:
+        alt = [p for p in tree_hash(d, "alt") if p.endswith(".go") and "/gen/" not in p]
+        for p in alt:
+            open(os.path.join(d, p), "a").write("\n// edited by the user\n")
+        before = {p: open(os.path.join(d, p), "rb").read() for p in alt}
+        rc, e = run_cmd(d, "example", "alt")
+        if rc != 0:
+            problems.append("second example -o alt failed: " + e[-400:])
+        for p in alt:
+            if open(os.path.join(d, p), "rb").read() != before[p]:
+                problems.append("example -o alt clobbered existing file " + p)
 
 
 def history(design, repo, tmp, processes=4):
@@ -80,6 +105,12 @@ def history(design, repo, tmp, processes=4):
         if err:
             problems.append("repeat %d failed" % i)
             continue
+        if i == 0:
+            # example into an output directory that is not the working directory (no example file in the cwd)
+            h0 = tree_hash(di, "gen")
+            history_alt(di, problems)
+            if tree_hash(di, "gen") != h0:
+                problems.append("example -o alt modified gen/")
         hi = tree_hash(di, "gen")
         if hi != h1:
             diff = sorted(k for k in set(h1) | set(hi) if h1.get(k) != hi.get(k))
